@@ -2,7 +2,7 @@
 with what budgets (cases per shard), for the quick and the thorough tier; plus the texts that
 go into MANIFEST.json and the evidence files."""
 
-SETUP_CONFIGS = ["std-rel", "std-dbg", "portable-rel", "portable-dbg", "nounroll-rel", "asan", "miri-build", "tsan",
+SETUP_CONFIGS = ["std-rel", "std-dbg", "portable-rel", "portable-dbg", "nounroll-rel", "native-rel", "asan", "miri-build", "tsan",
                  "nostd-sse2", "nostd-ssse3", "nostd-sse41", "nostd-avx", "nostd-avx2"]
 
 HOOK_COMMITS = ["0eb0db3", "aa9cd32"]
@@ -177,7 +177,7 @@ def jobs(pid, tier, seed):
             js += J(pid, "miri", 4, 6, timeout=3600)
     elif pid == "C03":
         n = 600 if q else 80000
-        for c in ["std-rel", "portable-rel"] + NOSTD + ([] if q else ["std-dbg", "portable-dbg"]):
+        for c in ["std-rel", "portable-rel", "native-rel"] + NOSTD + ([] if q else ["std-dbg", "portable-dbg"]):
             js += J(pid, c, 4, n)
     elif pid in ("C04", "C05", "C06", "C07"):
         big = pid in ("C04", "C05")
@@ -190,6 +190,8 @@ def jobs(pid, tier, seed):
                     js += J(pid, c, 1, 8000)
         if pid == "C05":
             js += J(pid, "nounroll-rel", 2, 1500 if q else 20000)
+        # statically selected CPU features (target-cpu=native: cfg(target_feature) paths)
+        js += J(pid, "native-rel", 1, 1000 if q else 15000)
         if not q:
             js += J(pid, "asan", 2, 4000)
             js += J(pid, "miri", 4, 6, timeout=3600)
@@ -204,6 +206,9 @@ def jobs(pid, tier, seed):
         js += J(pid, "std-rel", 6, 12000 if q else 5000000)
         js += J(pid, "std-dbg", 3, 6000 if q else 300000)
         js += J(pid, "nounroll-rel", 4, 12000 if q else 5000000)
+        # compile-time feature selection: AVX2 and everything this host has
+        js += J(pid, "nostd-avx2", 1, 6000 if q else 300000)
+        js += J(pid, "native-rel", 1, 6000 if q else 300000)
         if not q:
             js += J(pid, "nounroll-dbg", 3, 300000)
             js += J(pid, "miri", 2, 6, timeout=3600)
@@ -348,7 +353,7 @@ def c20(drv, pid, tier, seed):
     q = tier == "quick"
     n = 400 if q else 30000
     js = []
-    for cfg in ["std-rel", "std-dbg", "portable-rel", "nounroll-rel", "nostd-sse2", "nostd-avx2"] + ([] if q else ["portable-dbg", "nostd-ssse3", "nostd-sse41", "nostd-avx", "nounroll-dbg"]):
+    for cfg in ["std-rel", "std-dbg", "portable-rel", "nounroll-rel", "nostd-sse2", "nostd-avx2", "native-rel"] + ([] if q else ["portable-dbg", "nostd-ssse3", "nostd-sse41", "nostd-avx", "nounroll-dbg"]):
         js += J(pid, cfg, 2, n)
     for j in js:
         j["args"]["seed"] = seed
